@@ -161,14 +161,15 @@ def rule_reset(check):
     names = sorted({f.name for f, _ in roots})
     check.expect(names == ["visit_mut_block_stmt"], R, R + "/root-ctx-creation", "-", "Ctx::root() only when a block driver starts a block", "Ctx::root() is created in %s" % names)
     # RAII in visit_mut_expr
-    v = S.opv_visit_mut_expr(prog)
     reach = _reaches(prog, "next_ident")
     n_sites = 0
-    for n in hir.walk(v.body):
+    opv_methods = [f for f in prog.user_fns if (f.rec.get("self_ty") or "").split("<")[0].endswith(OPV) and not (f.rec.get("impl_of_trait") or "").endswith("VisitorWithContext")]
+    own = {f.def_path for f in opv_methods}
+    for v, n in [(v, n) for v in opv_methods for n in hir.walk(v.body)]:
         if not hir.is_call(n):
             continue
         g = prog.resolve_local(n)
-        if g is None or g.def_path not in reach or g.name in ("visit_mut_expr",):
+        if g is None or g.def_path not in reach or g.def_path in own:
             continue
         if n.get("callee", {}).get("name") in T_VISIT:
             continue
